@@ -22,7 +22,9 @@ def _mentions(t, quantity):
 
 
 def _is_version(t):
-    return any(n.get("k") == "call" and strip_targs(n.get("fn") or "").endswith("bitstream_version")
+    return any((n.get("k") == "call" and strip_targs(n.get("fn") or "").rsplit("::", 1)[-1]
+                in ("bitstream_version", "BitstreamVersion")) or
+               (n.get("k") == "field" and n.get("n") in ("bitstream_version_", "version_"))
                for n in walk(t))
 
 
